@@ -320,6 +320,42 @@ def r4(ctx, r):
             r.expect(pa.entails(q, A("due")), f, q, "%s fires early" % name, "TimingWheel::%s queues a callback whose deadline was not seen to be <= now" % name, okdesc="%s: fire only when deadline <= now" % name)
 
 
+def r4e(ctx, r):
+    """wheel: whenever an entry is (re-)bucketed from a delay, its stored deadline is refreshed from the same delay —
+    cascadeDown and drain decide fire/reinsert by that stored deadline"""
+    for name in ("schedule", "reschedule"):
+        f = twf(ctx, name)
+        ins = [e for e in f.stmts() if e.node.get("k") == "mcall" and e.node.get("callee") == TW + "::insertEntry"]
+        if not ins:
+            raise AnalysisBroken("TimingWheel::%s no longer calls insertEntry" % name)
+        for e in ins:
+            r.instance()
+            d = strip_wrappers(e.node["args"][1])
+            while d.get("k") == "ctor" and len(d.get("args", [])) == 1:
+                d = strip_wrappers(d["args"][0])
+            dn = d.get("n") if d.get("k") == "var" else None
+            ok = False
+            for (we, wn, k) in common.field_writes(f, TW + "::TimerEntry::deadline"):
+                if not elem_dominates(f, we, e):
+                    continue
+                v = strip_wrappers(common.assigned_value(f, wn) or {})
+                while v.get("k") == "ctor" and len(v.get("args", [])) == 1:
+                    v = strip_wrappers(v["args"][0])
+                if v.get("k") == "var":
+                    for x in f.stmts():
+                        if x.node.get("k") == "decl":
+                            for dv in x.node["vars"]:
+                                if dv["d"] == v.get("d") and dv.get("init") is not None:
+                                    v = strip_wrappers(dv["init"])
+                                    while v.get("k") == "ctor" and len(v.get("args", [])) == 1:
+                                        v = strip_wrappers(v["args"][0])
+                txt = show(v).replace(" ", "")
+                if dn and txt in ("steady_clock::now()+" + dn, dn + "+steady_clock::now()"):
+                    ok = True
+            r.expect(ok, f, e, "%s: deadline not refreshed" % name, "TimingWheel::%s buckets the entry from `%s` without first setting entry->deadline = now() + %s: cascade and drain decide by the "
+                     "stored deadline, so the timer would fire on its old deadline (early) or be misclassified at drain" % (name, dn, dn), okdesc="%s: entry->deadline = now() + %s before insertEntry" % (name, dn))
+
+
 def r5(ctx, r):
     la = ctx.locks()
     for (f, mutex, inserts, accf) in ((tsf(ctx, "scheduleAt"), TSM, ("_records",), TS + "::_accepting"), (tsf(ctx, "schedulePeriodic"), TSM, ("_records", "_periodicTimers"), TS + "::_accepting"),
@@ -411,6 +447,7 @@ def run(ctx, ck):
     ck.run_rule("C08-R2", "collect erases before hand-out and only non-cancelled; wheel unlinks+erases before firing", "A5 + A2", lambda r: r2(ctx, r))
     ck.run_rule("C08-R3", "handlers run outside the lock, pre-announced, counted by an RAII guard", "A1 + A5 ghost", lambda r: r3(ctx, r))
     ck.run_rule("C08-R4", "orientation of the due tests; deadlines unmodified; periodic += interval", "A5 comparisons + dataflow shape", lambda r: r4(ctx, r))
+    ck.run_rule("C08-R4e", "wheel: stored deadline and bucket position come from the same delay", "A2 + dataflow shape", lambda r: r4e(ctx, r))
     ck.run_rule("C08-R5", "acceptance re-checked in the inserting critical section; valid id only after insertion", "A5 + A1, sibling", lambda r: r5(ctx, r))
     ck.run_rule("C08-R6", "stop/drain join the worker before clearing state", "A2", lambda r: r6(ctx, r))
     ck.run_rule("C08-R7", "condition-variable discipline (drain CV, tick CV)", "A1", lambda r: r7(ctx, r))
